@@ -572,7 +572,8 @@ impl<'a, B: BitmapSlice> VolatileSlice<'a, B> {
             // - size is always a multiple of alignment, so treating *mut T as *mut u8 is fine
             unsafe { copy_from_volatile_slice(buf.as_mut_ptr() as *mut u8, self, total) }
         } else {
-            let count = self.size / size_of::<T>();
+            // A zero-sized `T` carries no data, so there are no elements to copy.
+            let count = self.size.checked_div(size_of::<T>()).unwrap_or(0);
             let source = self.get_array_ref::<T>(0, count).unwrap();
             source.copy_to(buf)
         }
@@ -650,7 +651,8 @@ impl<'a, B: BitmapSlice> VolatileSlice<'a, B> {
             // - size is always a multiple of alignment, so treating *mut T as *mut u8 is fine
             unsafe { copy_to_volatile_slice(self, buf.as_ptr() as *const u8, total) };
         } else {
-            let count = self.size / size_of::<T>();
+            // A zero-sized `T` carries no data, so there are no elements to copy.
+            let count = self.size.checked_div(size_of::<T>()).unwrap_or(0);
             // It's ok to use unwrap here because `count` was computed based on the current
             // length of `self`.
             let dest = self.get_array_ref::<T>(0, count).unwrap();
